@@ -99,8 +99,10 @@ Proof.
   intros cap meta d c H. unfold read_chunk_gen in H.
   destruct (lookup k_data d) as [v|]; [|discriminate H].
   destruct v; try discriminate H.
-  destruct (Nat.ltb (length b) 4); [discriminate H|].
-  destruct (inflate (skipn 4 b)) as [p|]; [|discriminate H].
+  match type of H with context [Nat.ltb (length ?zb) 4] =>
+    destruct (Nat.ltb (length zb) 4); [discriminate H|];
+    destruct (inflate (skipn 4 zb)) as [p|]; [|discriminate H]
+  end.
   destruct (dec_doc p) as [[ref r1]|]; [|discriminate H].
   destruct (take_exact 8 r1) as [[w r2]|]; [|discriminate H].
   cbv zeta in H.
@@ -601,6 +603,27 @@ Proof.
   - vm_compute. reflexivity.
 Qed.
 
+(* the known finding D1 on the faithful model: the column of a timestamp's seconds
+   is not the leaf's value (witness by computation, trivial codec in place of zlib) *)
+Theorem c02_timestamp_refuted :
+  exists docs nows,
+    let deflate := (fun p : bytes => 1%N :: p) in
+    let inflate := (fun z : bytes => match z with b :: p => if (b =? 1)%N then Some p else None | [] => None end) in
+    (docs <> [] /\ length nows = length docs /\ Forall (fun t => in_i64 t = true) nows /\
+     same_schema docs /\
+     Forall (fun d => doc_ok d = true /\ doc_leaves_ok d = true /\ Wf.small (enc_doc d)) docs /\
+     (N.of_nat (length (flatten_doc (hd [] docs))) < 2 ^ 32)%N) /\
+    map chunk_table (fst (read_chunks inflate None (emitted (snd (fst (emit deflate KBase 3 docs nows))))))
+      <> [doc_table (hd [] docs) docs].
+Proof.
+  exists [[([116]%N, VTimestamp 5 7)]], [0]. cbv zeta. split.
+  - split; [discriminate|]. split; [reflexivity|]. split; [repeat constructor|].
+    split. { intros a b [<-|[]] [<-|[]]. reflexivity. }
+    split. { constructor; [|constructor]. split; [reflexivity|]. split; [reflexivity|]. unfold Wf.small. vm_compute. reflexivity. }
+    vm_compute. reflexivity.
+  - vm_compute. intro H. discriminate H.
+Qed.
+
 Print Assumptions read_keys_full_paths.
 Print Assumptions read_keys_unique.
 Print Assumptions emit_tables.
@@ -610,3 +633,4 @@ Print Assumptions c02_keys_full_paths.
 Print Assumptions c02_keys_unique.
 Print Assumptions c02_table.
 Print Assumptions c02_example.
+Print Assumptions c02_timestamp_refuted.
